@@ -1,5 +1,5 @@
 (* C24 x C21: the hypotheses of the abstract-evaluation theorem are dischargeable.  An entry of the operator table whose result
-   is what the strided-interval model computes for + (and for binary -, with an aligned subtrahend) is sound: C21's theorems
+   is what the strided-interval model computes for + (and for binary -, for every subtrahend whose stride is 0 only if it is a single value) is sound: C21's theorems
    prove the premise [entry_ok] of C24_table for these operators. *)
 From Coq Require Import ZArith List Bool Lia.
 Require Import CV.Spec.BV CV.Model.PyPrelude CV.Model.Ast CV.Model.SI CV.Model.SIUnion CV.Model.AbsInt CV.Proofs.SISound
@@ -29,14 +29,14 @@ Proof.
   apply gamma_t_asi. exists (bvadd (bits a) x y). split; [rewrite Br; reflexivity|exact G].
 Qed.
 
-Theorem sub_entry_ok a b r : wf a -> wf b -> bits a = bits b -> aligned b -> si_sub a b = Ok r ->
+Theorem sub_entry_ok a b r : wf a -> wf b -> bits a = bits b -> proper b -> si_sub a b = Ok r ->
   entry_ok (OSub, [], [asi a; asi b], asi r).
 Proof.
   intros Wa Wb Hab Al Hr. unfold entry_ok. intros vs v HF Hev.
   inversion HF as [|? va ? ? Ga HF1]; subst. inversion HF1 as [|? vb ? ? Gb HF2]; subst. inversion HF2; subst.
   apply gamma_t_asi in Ga as (x & -> & Gx). apply gamma_t_asi in Gb as (y & -> & Gy).
   cbn [eval_op bin_bv] in Hev. rewrite <- Hab, Z.eqb_refl in Hev. inversion Hev; subst v.
-  destruct (sub_sound a b x y Wa Wb Hab Al Gx Gy) as (r' & E & _ & Br & G). rewrite Hr in E. inversion E; subst r'.
+  destruct (sub_sound_proper a b x y Wa Wb Hab Al Gx Gy) as (r' & E & _ & Br & G). rewrite Hr in E. inversion E; subst r'.
   apply gamma_t_asi. exists (bvsub (bits a) x y). split; [rewrite Br; reflexivity|exact G].
 Qed.
 
